@@ -10,7 +10,7 @@ Event tokens (`Model/Unwind.lean : Ev`):
   `nf:N` newFrame · `ts:R:IP` tryStart · `te` tryEnd · `call:FB:A` call · `cn:FB` callNative ·
   `ret` · `ss` seqStart · `se` seqEnd · `rs` strStart · `re` strEnd · `ex:K` exportVal ·
   `raise:0|1` · `nest:ARGS:A` nested · `ib:M` importBegin ·
-  `enter:PRE:ARGS:kA|n|f` · `ed:PRE:0|1` enterDirect · `nr:0|1` nativeRet · `ie:0|1` importEnd
+  `enter:PRE:ARGS:kA|n|f` · `eop:PRE:ARGS:kA|n|f` enterOp · `ed:PRE:0|1` enterDirect · `nr:0|1` nativeRet · `ie:0|1` importEnd
 
 State summary:
   `regs stackLen seq str base | minRegs contsLen | p<placeholders,> | c<cached,> | e<exports,>`
@@ -39,6 +39,15 @@ def parseEv (tok : String) : Option Ev :=
   | ["raise", c] => c.toNat?.map (fun n => Ev.raise (n != 0))
   | ["nest", a, b] => do pure (Ev.nested (← a.toNat?) (← b.toNat?))
   | ["ib", m] => m.toNat?.map Ev.importBegin
+  | ["eop", pre, args, c] => do
+    let pre ← pre.toNat?
+    let args ← args.toNat?
+    let callee ← match c.toList with
+      | ['n'] => some Callee.native
+      | ['f'] => some Callee.fail
+      | 'k' :: rest => (String.ofList rest).toNat?.map Callee.koto
+      | _ => none
+    pure (Ev.enterOp pre args callee)
   | ["enter", pre, args, c] => do
     let pre ← pre.toNat?
     let args ← args.toNat?
